@@ -1,6 +1,6 @@
-(* C09 -- IndexLevelGO.append: inside the guard (the key's outer labels, as far as they are found, are
-   the LAST labels of the nodes on the last edge) the tree afterwards lists exactly the labels before
-   followed by the key.  Outside the guard Refuted/C09.v has the counterexample. *)
+(* C09 -- IndexLevelGO.append (after fix 5320f59, which rejects a key whose outer label is found but is not
+   the last label of its node): an accepted append lists exactly the labels before followed by the key,
+   for every tree and every depth; a rejected one leaves the tree as it was. *)
 Require Import SF.Prelude SF.Dtype SF.GrowOnly SF.GrowOnlyHier.
 
 Section HierProofs.
@@ -12,7 +12,7 @@ Hypothesis leq_eq : forall a b, leq a b = true -> a = b.
 Notation lvl := (lvl L).
 Notation flatten := (flatten L).
 Notation M_lappend := (M_lappend L leq).
-Notation on_last_edge := (on_last_edge L leq).
+Notation is_last := (is_last L leq).
 Notation chain := (chain L).
 Notation last_opt := (last_opt L).
 
@@ -60,10 +60,12 @@ Fixpoint on_last (r : list L) (ks : list lvl) : res (list lvl) :=
 Lemma lappend_node : forall ls kids k r,
   M_lappend (Node ls kids) (k :: r) =
   if mem L leq k ls then
+    if negb (is_last k ls) then Err "RuntimeError" else
     match on_last r kids with Ok kids' => Ok (Node ls kids') | Err e => Err e end
   else match chain r with Some c => Ok (Node (ls ++ [k]) (kids ++ [c])) | None => Err "RuntimeError" end.
 Proof.
   intros ls kids k r. cbn. destruct (mem L leq k ls); [|reflexivity].
+  destruct (negb (is_last k ls)); [reflexivity|].
   assert (E : forall ks,
     (fix on_last0 (ks0 : list lvl) : res (list lvl) :=
        match ks0 with
@@ -79,23 +81,6 @@ Proof.
   now rewrite E.
 Qed.
 
-Fixpoint edge_last (r : list L) (ks : list lvl) : bool :=
-  match ks with
-  | [] => false
-  | c :: rest => match rest with [] => on_last_edge c r | _ => edge_last r rest end
-  end.
-
-Lemma edge_node : forall ls kids k r,
-  on_last_edge (Node ls kids) (k :: r) =
-  if mem L leq k ls then
-    match last_opt ls with Some x => leq k x && edge_last r kids | None => false end
-  else true.
-Proof.
-  intros ls kids k r. cbn. destruct (mem L leq k ls); [|reflexivity].
-  destruct (last_opt ls) as [x|]; [|reflexivity]. f_equal.
-  induction kids as [|c rest IH]; [reflexivity|]. destruct rest as [|c2 rest2]; [reflexivity|]. exact IH.
-Qed.
-
 (* lists split at their last element *)
 Lemma on_last_split : forall r ks ks', on_last r ks = Ok ks' ->
   exists pre c c', ks = pre ++ [c] /\ ks' = pre ++ [c'] /\ M_lappend c r = Ok c'.
@@ -109,14 +94,6 @@ Proof.
     destruct (on_last r (c2 :: rest2)) as [rs|e] eqn:E; [|discriminate]. injection H as <-.
     destruct (IH rs eq_refl) as (pre & c0 & c0' & E1 & E2 & E3).
     exists (c :: pre), c0, c0'. rewrite E1, E2. auto.
-Qed.
-
-Lemma edge_last_split : forall r pre c, edge_last r (pre ++ [c]) = on_last_edge c r.
-Proof.
-  induction pre as [|p rest IH]; intros c; [reflexivity|].
-  cbn [app edge_last]. destruct (rest ++ [c]) eqn:E.
-  - destruct rest; discriminate.
-  - rewrite <- E. apply IH.
 Qed.
 
 Lemma last_opt_split : forall ls x, last_opt ls = Some x -> exists lpre, ls = lpre ++ [x].
@@ -158,30 +135,31 @@ Proof.
   intros A a a' x y Hl H. apply app_inj_tail in H. exact H.
 Qed.
 
-(* APPEND, inside the guard: exactly the given label is added, at the end, and the tree stays well formed *)
+(* APPEND: an accepted call adds exactly the given label, at the end, and the tree stays well formed *)
 Theorem hier_append_correct : forall t key t',
-  lvl_wf t -> on_last_edge t key = true -> M_lappend t key = Ok t' ->
+  lvl_wf t -> M_lappend t key = Ok t' ->
   flatten t' = flatten t ++ [key] /\ lvl_wf t'.
 Proof.
-  induction t as [ls|ls kids IH] using lvl_rect'; intros key t' Hwf Hedge Happ.
+  induction t as [ls|ls kids IH] using lvl_rect'; intros key t' Hwf Happ.
   - (* leaf *)
     destruct key as [|k [|k2 r]]; cbn in Happ; try discriminate.
     destruct (mem L leq k ls); [discriminate|]. injection Happ as <-. split; [|constructor].
     cbn. now rewrite map_app.
   - destruct key as [|k r]; [discriminate|].
-    rewrite lappend_node in Happ. rewrite edge_node in Hedge.
+    rewrite lappend_node in Happ.
     inversion Hwf as [|? ? Hlen Hkids]; subst.
     destruct (mem L leq k ls) eqn:Hm.
-    + destruct (last_opt ls) as [x|] eqn:Hlast; [|discriminate].
-      apply andb_true_iff in Hedge as [Hkx Hedge]. apply leq_eq in Hkx. subst x.
+    + destruct (negb (is_last k ls)) eqn:Hlst; [discriminate|].
+      apply negb_false_iff in Hlst. unfold GrowOnlyHier.is_last in Hlst.
+      destruct (last_opt ls) as [x|] eqn:Hlast; [|discriminate].
+      apply leq_eq in Hlst. subst x.
       destruct (on_last r kids) as [kids'|e] eqn:Eol; [|discriminate]. injection Happ as <-.
       destruct (on_last_split r kids kids' Eol) as (pre & c & c' & -> & -> & Hc).
       destruct (last_opt_split ls k Hlast) as [lpre ->].
-      rewrite edge_last_split in Hedge.
       assert (Hl : length lpre = length pre) by (rewrite !app_length in Hlen; cbn in Hlen; lia).
       rewrite Forall_forall in IH.
       apply Forall_app in Hkids as [Hpre Hcw]. inversion Hcw as [|? ? Hcwf _]; subst.
-      destruct (IH c ltac:(apply in_or_app; right; now left) r c' Hcwf Hedge Hc) as [Hf Hw].
+      destruct (IH c ltac:(apply in_or_app; right; now left) r c' Hcwf Hc) as [Hf Hw].
       split.
       * rewrite !flatten_node, !zip_go_app by assumption. rewrite Hf, map_app, app_assoc. reflexivity.
       * constructor; [rewrite !app_length; cbn; lia|]. apply Forall_app. split; [exact Hpre | repeat constructor; exact Hw].
